@@ -36,6 +36,10 @@ def run(ctx):
     ctx.tlc("MC_Preproc", "MC_Preproc_wf_" + t, replay="preproc", coverage=cov, required_tags=TAGS,
             required_actions=ACTIONS if cov else ())
     ctx.tlc("MC_Preproc", "MC_Preproc_expr_" + t, replay="preproc", coverage=False, required_tags=["ill-formed", "well-formed"])
+    # a doc comment whose lines are separated by directives / unselected blocks: its diagnostics keep their rows
+    ctx.tlc("MC_DocSplit", "MC_DocSplit", replay="preproc", coverage=False)
+    # compound groups in parentheses, negated, nested two deep, alone or as an operand (up to 17 tokens)
+    ctx.tlc("MC_Preproc", "MC_Preproc_deep", replay="preproc", coverage=False)
     n = 300 if ctx.quick else 20000
     ctx.tlc("MC_Preproc", "MC_Preproc_sim", replay="preproc", simulate={"num": n, "depth": 41}, label="MC_Preproc_sim")
     ctx.tlc("MC_Preproc", "MC_Preproc_simbad", replay="preproc", simulate={"num": n, "depth": 26, "seed_offset": 7},
